@@ -434,6 +434,7 @@ package memberlist
 //@   safety [C13]
 //@   modular
 //@   requires ok: mlNet(m) && from != nil
+//@   at call (*Memberlist).handleCommand: assert payload-is-own [C11,C12,C13]: len($buf) > 0 ==> fresh($buf)     // what is unpacked from a compressed packet is queued by reference: it must not live in a buffer the next packet reuses
 
 //@ func (*Memberlist).handlePing(m, buf, from)
 //@   safety [C13,C19]
@@ -510,6 +511,7 @@ package memberlist
 //@   requires nonnil: c != nil
 //@   at call io.CopyN: assert cap-decompress [C13]: arg2 <= maxDecompressedBytes + 1
 //@   ensures cap [C13]: result1 == nil ==> len(result0) <= maxDecompressedBytes
+//@   ensures own [C11,C12,C13]: result1 == nil && len(result0) > 0 ==> fresh(result0)     // every inflated payload has a buffer of its own: the messages unpacked from it are queued and handled after the next packet has arrived
 
 //@ func (*Memberlist).getNextMessage(m)
 //@   safety [C13]
